@@ -50,6 +50,14 @@ WORLDS: Dict[str, Dict[str, Any]] = {
         stations={"s1": dict(cell="c2", plugs={"l2": 1})},
         bases={"b1": dict(cell="c2", stalls=2, station="s1")}, requests={},
     ),
+    "twin": dict(
+        doc="3 vehicles, TWO one-plug stations of the same plug type a short drive apart: a vehicle waiting in one queue is "
+            "sent to the other station and joins that queue as a newcomer (its rank there is the time it joins)",
+        geom={"c2": (200, 0), "c3": (0, 300)}, cells=[],
+        vehicles={"v1": dict(cell="c3", en=2), "v2": dict(cell="c2", en=2), "v3": dict(cell="c2", en=2)},
+        stations={"s1": dict(cell="c2", plugs={"l2": 1}), "s2": dict(cell="c3", plugs={"l2": 1})},
+        bases={}, requests={},
+    ),
     "trip": dict(
         doc="3 vehicles, 2 requests (one co-located with two vehicles, one with origin = destination elsewhere): dispatch, "
             "re-dispatch, double dispatch, cancellation racing a pickup, interruption attempts, low energy",
